@@ -158,6 +158,32 @@ def d19_shifts(tracks, cuts, ppqn=24):
     return out
 
 
+def split_call_shifts(tracks, cuts, ppqn=24):
+    """D19 for chunks cut by `Sequence.split` at bar lines (oracle chunked_split), predicted from the plain input.  A call's clock stops on
+    its last event ONSET (note-on or signature inside the chunk; the chunk's own end when the chunk ends in a rest, i.e. no note ends exactly
+    on the cut) and only the bar that onset lies in is closed: the call returns on that onset if it is a bar line, else at the end of its bar.
+    Unlike chunks of Bar objects, a split chunk keeps notes that sound across its inner bar lines, so the last onset may lie bars before
+    the cut.  -> the cumulative amounts by which the later calls' output lies early (one per call that falls short, in order; base ticks)"""
+    bars = bars_plain(tracks, ppqn)
+    lines = [0] + [e for _, e in bars]
+    notes, sigs, caps, wf = piece_of_tracks(tracks)
+    allnotes = [(on, on + d) for ns in notes for (p, on, d, v) in ns]
+    cs = sorted({c for c in cuts if 0 < c < len(bars)})
+    out, acc, lo = [], 0, 0
+    for c in cs:
+        a, b = lines[lo], lines[c]
+        onsets = [on for (on, off) in allnotes if a <= on < b] + [t for (t, _, _) in sigs if a <= t < b]
+        if not any(off == b for (on, off) in allnotes if a <= on < b):
+            onsets.append(b)                     # the chunk ends in a rest: its cap message stands on the cut
+        last = max(onsets + [a])
+        end = last if last in lines else min(x for x in lines if x > last)
+        if end < b:
+            acc += b - end
+            out.append(acc)
+        lo = c
+    return out
+
+
 def d19_outcome(detail, shifts):
     """does a failure detail of C03's `chunked` oracle ("… <reference list>, chunked <list> (partition …)") show D19's effect and nothing else:
     every tick of the chunked list (note onset / bar end / signature tick) is a tick of the reference moved EARLIER by 0 or by one of the
